@@ -299,6 +299,9 @@ func (g *generator) mustSeparate(a, b tok) bool {
 			return true
 		}
 	}
+	if a.kind == "punct" && b.kind == "numeric" && strings.HasSuffix(g.run, "..") && b.text[0] == '.' {
+		return true // ". . .5" written without separators is "..." "5" (a false alarm of the thorough tier: the relation had let it pass)
+	}
 	if a.kind == "punct" && b.kind == "numeric" && strings.HasSuffix(a.text, "?") && b.text[0] == '.' {
 		return false // "?" ".5" lexes as written
 	}
